@@ -57,8 +57,9 @@ CLAIMED = {
             "on a world return find? of their traversal's listing for the attribute predicate). The model "
             "has no notion of vertex truthiness at all, so any dependence of the real code on it is a correspondence break (falsy Vertex subclass in the pool).",
             "Attribute values are modelled as ==-classes; Python's == on the value pool is trusted.", "DESIGN.md 3/C08"),
-    "C19": ("Lean 4 proof: invariant LawSym over all histories + M=S refinement of the two mutually recursive setters; exhaustive small-scope correspondence",
-            "Theorems C19_all_histories (u.laws is L iff L.applies_to is u after every prefix of every history), C19_every_assignment_succeeds, C19_ctor, "
+    "C19": ("Lean 4 proof: invariant LawSym over all histories + M=S refinement of the two mutually recursive setters; the complete one-step transition table of a 2x2 pool regenerated from the real setters on every run and re-proved equal to the model by kernel evaluation; exhaustive small-scope correspondence",
+            "Regenerated on every run (84 rows = 7 consistent states x 12 assignments, the whole state machine of a pool of two universes and two law sets): C19_laws_impl_eq_model (the four pointers after "
+            "every assignment on the REAL code are the model's), C19_laws_impl_eq_spec (no exception, consistent, took effect), C19_laws_states_closed, C19_laws_table_complete, by decide +kernel. Theorems C19_all_histories (u.laws is L iff L.applies_to is u after every prefix of every history), C19_every_assignment_succeeds, C19_ctor, "
             "C19_rules_immutable, C19_rules_readback. Correspondence: pool of 2 universes x 4 law sets + None, every assignment from both sides to depth 2/3, "
             "random histories; rule attributes read back through the public properties and assignment attempted.",
             "UniverseLaws(applies_to=U) constructed directly is outside the statement.", "DESIGN.md 3/C19"),
